@@ -263,7 +263,7 @@ func Main(tb TB, e Engine) {
 			}
 			var ck []string
 			for k, v := range res.Counters {
-				if strings.HasPrefix(k, "fs_") || strings.HasPrefix(k, "ms_") || strings.HasPrefix(k, "crash_") || strings.HasPrefix(k, "images_") || strings.HasPrefix(k, "nested_") || strings.HasPrefix(k, "post_") || k == "sim_seconds" {
+				if strings.HasPrefix(k, "fs_") || strings.HasPrefix(k, "ms_") || strings.HasPrefix(k, "crash_") || strings.HasPrefix(k, "images_") || strings.HasPrefix(k, "nested_") || strings.HasPrefix(k, "post_") || strings.HasPrefix(k, "rebuild_rerun") || k == "sim_seconds" {
 					continue
 				}
 				ck = append(ck, fmt.Sprintf("%s=%d", k, v))
